@@ -63,4 +63,93 @@ theorem resume_sees_what_others_left (l : Lay) (ok : l.Ok) (ops : List Op) (hops
 theorem object_reads_disk (l : Lay) (e : Entry) :
     payloadOf l.state e = readAt l.state.disk e.off.toNat e.size.toNat := rfl
 
+/-! ### every state (session 5): files of other software, tables in any order, with gaps, with unused slots anywhere.
+    No layout is assumed — these are invariants of the transition function itself. -/
+
+theorem add_pending_any (s : TdfSt) (b : BlkArg) (c : Str) (now : Int) (h : s.disk = s.view) :
+    (addBlock s b c now).1.disk = (addBlock s b c now).1.view := by
+  unfold addBlock
+  repeat' split
+  all_goals first | exact h | rfl
+
+theorem remove_pending_any (s : TdfSt) (t : Nat) (now : Int) (h : s.disk = s.view) :
+    (removeBlock s t now).1.disk = (removeBlock s t now).1.view := by
+  unfold removeBlock
+  split
+  · exact h
+  · rfl
+
+theorem replace_pending_any (s : TdfSt) (b : BlkArg) (c : Option Str) (now : Int) (h : s.disk = s.view) :
+    (replaceBlock s b c now).1.disk = (replaceBlock s b c now).1.view := by
+  unfold replaceBlock
+  cases hfind : s.entries.find? (fun e => e.typ == b.typ) with
+  | none => exact h
+  | some old =>
+    simp only []
+    cases hchk : checkArg b (c.getD old.comment) now with
+    | error e' => exact h
+    | ok pl =>
+      simp only []
+      by_cases hhole : holeIn (eraseFirst (fun e => e.typ == b.typ) s.entries) = true
+      · simp only [hhole, if_true]; exact h
+      · simp only [hhole, Bool.false_eq_true, if_false]
+        have h1 := remove_pending_any s b.typ now h
+        rcases hrem : removeBlock s b.typ now with ⟨s1, o⟩
+        rw [hrem] at h1
+        cases o with
+        | ok => exact add_pending_any s1 b _ now h1
+        | err e => exact h1
+
+/-- ONE call, ANY state: whatever table the object holds (well-formed or not), whatever the call is and whether it is accepted or
+    refused, when it returns the bytes on disk are the bytes seen through the handle — nothing is left pending in a buffer -/
+theorem step_nothing_pending_any (s : TdfSt) (op : Op) (h : s.disk = s.view) :
+    (step s op).1.disk = (step s op).1.view := by
+  cases op with
+  | add b c now => exact add_pending_any s b c now h
+  | remove t now => exact remove_pending_any s t now h
+  | replace b c now => exact replace_pending_any s b c now h
+  | set b now =>
+    simp only [step, setBlock]
+    split
+    · exact replace_pending_any s b none now h
+    · exact add_pending_any s b _ now h
+  | reopen =>
+    simp only [step]
+    cases hopen : openFile s.disk with
+    | none => exact h
+    | some s' =>
+      simp only [openFile] at hopen
+      split at hopen
+      · cases hopen; rfl
+      · cases hopen
+
+/-- EVERY history from ANY state with nothing pending — no `Lay.Ok`, no `OpsOk`: also on tables this library did not write and
+    through refused calls — ends with nothing pending; by `opsOk`-free prefix closure this holds after each individual call -/
+theorem history_nothing_pending_any (s : TdfSt) (ops : List Op) (h : s.disk = s.view) :
+    (runOps s ops).disk = (runOps s ops).view := by
+  induction ops generalizing s with
+  | nil => exact h
+  | cons op ops ih => exact ih _ (step_nothing_pending_any s op h)
+
+theorem runOps_append (s : TdfSt) (a b : List Op) : runOps s (a ++ b) = runOps (runOps s a) b := by
+  induction a generalizing s with
+  | nil => rfl
+  | cons op ops ih => exact ih _
+
+/-- … observed after each individual operation of the history, not only at its end -/
+theorem after_each_step_any (s : TdfSt) (ops1 ops2 : List Op) (h : s.disk = s.view) :
+    (runOps s ops1).disk = (runOps s ops1).view ∧ (runOps s (ops1 ++ ops2)).disk = (runOps s (ops1 ++ ops2)).view :=
+  ⟨history_nothing_pending_any s ops1 h, history_nothing_pending_any s _ h⟩
+
+/-- what `__enter__` hands out has nothing pending, whatever the bytes are -/
+theorem open_nothing_pending (d : Bytes) (s : TdfSt) (h : openFile d = some s) : s.disk = s.view ∧ s.disk = d := by
+  simp only [openFile] at h
+  split at h
+  · cases h; exact ⟨rfl, rfl⟩
+  · cases h
+
+/-- non-vacuity: a state that is no layout image (live entry behind an unused slot, data out of table order) meets the hypothesis -/
+example : (⟨[1,2,3], [1,2,3], [⟨0, 0, 1000, 0, 0, 0, 0, []⟩, ⟨11, 1, 936, 64, 0, 0, 0, []⟩], 2⟩ : TdfSt).disk
+    = (⟨[1,2,3], [1,2,3], [⟨0, 0, 1000, 0, 0, 0, 0, []⟩, ⟨11, 1, 936, 64, 0, 0, 0, []⟩], 2⟩ : TdfSt).view := rfl
+
 end Tdf.C10
